@@ -336,7 +336,7 @@ fn collect_function_decl_names_stmt(
 }
 
 /// Collect var names from a pattern (for destructuring)
-fn collect_pattern_var_names(pattern: &Pattern, names: &mut Vec<JsString>) {
+pub(super) fn collect_pattern_var_names(pattern: &Pattern, names: &mut Vec<JsString>) {
     match pattern {
         Pattern::Identifier(id) => {
             names.push(id.name.cheap_clone());
